@@ -111,7 +111,6 @@ pub(crate) fn restore_disclosure(
     current_path: String,
     disclosure_paths: &mut Vec<DisclosurePath>,
 ) -> Result<bool, Error> {
-    let mut array_changes = Vec::new();
     let mut is_restored = false;
 
     match claims {
@@ -148,24 +147,19 @@ pub(crate) fn restore_disclosure(
                         ));
                     }
 
-                    if let Some(v) = value {
-                        if v == disclosure.digest() {
-                            if !disclosure.key().is_none() {
-                                return Err(Error::SDJWTRejected(format!(
-                                    "disclosure key must be empty in {} for array elements",
-                                    disclosure.disclosure(),
-                                )));
-                            }
-                            let path = format_path(&current_path, &idx.to_string());
-                            disclosure_paths.push(DisclosurePath::new(&path, disclosure));
-                            array_changes.push(disclosure.value().clone());
-                            is_restored = true;
+                    if value.map_or(false, |v| v == disclosure.digest()) {
+                        if !disclosure.key().is_none() {
+                            return Err(Error::SDJWTRejected(format!(
+                                "disclosure key must be empty in {} for array elements",
+                                disclosure.disclosure(),
+                            )));
                         }
+                        let path = format_path(&current_path, &idx.to_string());
+                        disclosure_paths.push(DisclosurePath::new(&path, disclosure));
+                        *item = disclosure.value().clone();
+                        is_restored = true;
                     }
                 }
-            }
-            for elem in array_changes {
-                array.push(elem);
             }
         }
         _ => {}
